@@ -87,6 +87,11 @@ class TreeLayout:
 
             return self
 
+        # A thread left on the node by an earlier layout() of the same nodes would be
+        # followed by the contour walk below as if it belonged to this pass.
+        if hasattr(node, "thread"):
+            del node.thread
+
         # Assign the `node.y`, note the left/right child nodes, and recurse
         node.y = level
         left = node.left
